@@ -49,6 +49,19 @@ class C04(Prop):
                 child = {"self_exit": None, "ignore_all": True, "kill_delay": kd}
                 slow.append({"id": 0, "monitor_only": "slow-death", "script": {"children": [child, dict(child)], "spawn_fail": [], "signal_fail": [], "kill_fail": []},
                              "ops": ops, "waiters": 1, "tail": 8000 + kd})
+        # wait-fault family: collecting the exit status of the child fails once (the status is still there to collect).  Outside the
+        # model (it has no failing wait), judged by the log monitor: nothing is spawned while that child is un-reaped
+        for wf in ([0], [1], [0, 1]):
+            for c0 in ({"self_exit": 30, "ignore_all": True}, {"self_exit": None, "react": [[15, 10]], "default": None}, {"self_exit": None, "ignore_all": True}):
+                for seq in (["start", "start"], ["stop", "start"], ["restart"], ["try_restart", "start"], ["stop_with_signal", "start"], ["start", "restart"]):
+                    ops = [{"at": 0, "op": "start", "yield": True}]
+                    for k, nm in enumerate(seq):
+                        op = {"at": 60 + 40 * k, "op": nm, "yield": True}
+                        if "with_signal" in nm:
+                            op.update(sig="Terminate", grace=20)
+                        ops.append(op)
+                    slow.append({"id": 0, "monitor_only": "wait-fault", "script": {"children": [dict(c0), dict(c0), dict(c0)], "spawn_fail": [], "signal_fail": [], "kill_fail": [], "wait_fail": wf},
+                                 "ops": ops, "waiters": 1, "tail": 1000})
         c = job_check(self, "thorough" if deep else tier, seed, monitor, slow)
         if not c.errors:
             mt_check(c, "c04", seed, 24 if tier == "quick" and not deep else 300, mt_monitor_overlap)
